@@ -271,12 +271,38 @@ pub fn cases(thorough: bool) -> Vec<NCase> {
 /// Texts that are not expressible as `Opd` values: register names beyond r31 etc.
 pub fn raw_cases() -> Vec<(String, &'static str)> {
     let mut v = vec![];
+    // number literals that do not fit 64 bits can never be an encodable operand
+    for lit in ["0xFFFFFFFFFFFFFFFF", "0x8000000000000000", "$ffffffffffffffff", "0xFFFFFFFFFFFFFF80", "0xFFFFFFFFFFFF0040", "18446744073709551615", "9223372036854775808", "0x10000000000000005", "01777777777777777777777", "0b1111111111111111111111111111111111111111111111111111111111111111"] {
+        for tpl in ["ldi r16, {}", "subi r20, {}", "cbr r17, {}", "adiw r24, {}", "in r1, {}", "out {}, r1", "sbi {}, 1", "sbi 1, {}", "sbrc r1, {}", "bset {}", "brbs {}, pc", "brne {}", "rjmp {}", "nop\nnop\nrcall {}", "jmp {}", "call {}", "lds r1, {}", "sts {}, r1", "ldd r1, Y+{}", "std Z+{}, r1", ".device ATtiny20\nlds r16, {}"] {
+            v.push((tpl.replace("{}", lit), "literal-beyond-64-bits"));
+        }
+    }
     for r in ["r32", "r33", "r40", "r99", "R32", "r100", "r255"] {
         for (tpl, _) in [("mov {}, r1", 0), ("mov r1, {}", 0), ("ldi {}, 1", 0), ("inc {}", 0), ("ld {}, X", 0), ("st X+, {}", 0), ("in {}, 5", 0), ("lds {}, 0x60", 0), ("movw {}, r0", 0), ("sbrc {}, 1", 0)] {
             v.push((tpl.replace("{}", r), "bad-register-name"));
         }
     }
     v
+}
+
+/// Registers written through a `.def` alias must be judged exactly like the literal register.
+pub fn alias_cases() -> Vec<(String, Verdict, String)> {
+    let mut out = vec![];
+    for m in isa::all_mnemonics() {
+        let base = baseline(&m);
+        for pos in 0..base.len() {
+            if let Opd::R(_) = base[pos] {
+                for r in 0..32u8 {
+                    let mut ops = base.clone();
+                    ops[pos] = Opd::R(r);
+                    let verdict = isa::assemble(&m, &ops, Core::Full, 0);
+                    let texts: Vec<String> = ops.iter().enumerate().map(|(i, o)| if i == pos { "Al_q".to_string() } else { o.to_string() }).collect();
+                    out.push((format!(".def al_q = r{}\n{} {}", r, m, texts.join(", ")), verdict, m.clone()));
+                }
+            }
+        }
+    }
+    out
 }
 
 pub fn src_of(c: &NCase) -> String {
@@ -342,6 +368,22 @@ pub fn run(ctx: &Ctx) -> Result<Ev, String> {
     let mut total = Ev::new("C04");
     for p in parts {
         total.merge(p);
+    }
+    for (src, verdict, m) in alias_cases() {
+        total.eval();
+        let (chk, class) = match &verdict {
+            Verdict::Legal(w) => (Check::image_code(src.clone(), to_bytes(w)), "legal"),
+            Verdict::Either(w) => (Check::FailOrImage { src: src.clone(), code: to_bytes(w) }, "convention-dependent"),
+            Verdict::Illegal => (Check::MustFail { src: src.clone(), token: None }, "illegal"),
+        };
+        total.class(&format!("alias:{}", class));
+        if class == "illegal" {
+            total.nt(fp(&src));
+        }
+        if let Err(e) = chk.eval() {
+            let outcome = if e.contains("anic") { "panic" } else if class == "illegal" { "accepted" } else if e.contains("Err(") { "legal-rejected" } else { "misencoded" };
+            total.violation(Violation { sig: format!("c04:{}:alias:{}", m, outcome), what: format!("`{}` ({}): {}", src.replace('\n', " | "), class, e), replay: chk.to_json() });
+        }
     }
     for (src, tag) in raw_cases() {
         total.eval();
